@@ -304,6 +304,9 @@ func parsePacketAdaptationField(i *astikit.BytesIterator) (a *PacketAdaptationFi
 		}
 	}
 
+	// An empty adaptation field is the one byte stuffing form: flag it so that the packet can be written back as is
+	a.IsOneByteStuffing = a.Length == 0
+
 	a.StuffingLength = a.Length - (i.Offset() - afStartOffset)
 
 	return
